@@ -542,4 +542,39 @@ theorem C07_table_domains (E : Env α) (inp : ForestIn α) (F : Forest α) (hini
     exact this
   exact buildTable_cells E F convs isIntegral entropy threshRel cl streams s s' res _ hini hder hM h
 
+/-- **C07, value domains, from the typed input table, any cluster plan.**  Whatever plan over the table's columns `sample()` executes —
+`NoClustering`, `SingleClustering`, the plans of the default and of the ML strategy, stitched or patched, either ownership — every row of
+the synthetic table has one cell per column of the table, and the cell standing for input column `j` is a null or a value of that column's
+type: a boolean, an integer, a real, a timestamp; in a string column an input string of that very column or a mask `prefix*index`. -/
+theorem C07_synthesize_plan_domains (E : Env α) (cols : List (RawCol α)) (nrows : Nat) (names : List String)
+    (pids : Array (List UInt64)) (ap : AnonParams α) (bp : BucketParams) (kind : CounterKind)
+    (hn : 0 < nrows) (hlt : 0 ≤ ap.supp.lt)
+    (isIntegral : List Bool) (entropy : List α) (threshRel : α) (cl : Clusters)
+    (hini : 1 ≤ cl.initial.length) (hder : ∀ dc ∈ cl.derivedClusters, 1 ≤ dc.derived.length)
+    (hcols : ∀ j, (j ∈ cl.initial ∨ ∃ dc ∈ cl.derivedClusters, j ∈ dc.stitch ∨ j ∈ dc.derived) → j < cols.length)
+    (streams : List (List Nat × List (Draw α))) (s s' : List (Draw α)) (res : MTable (Cell α) α)
+    (h : (synthesizePlan E cols nrows names pids ap bp kind isIntegral entropy threshRel cl streams).run s = .ok (res, s')) :
+    ∀ row ∈ res.1, row.length = res.2.length ∧
+      ∀ (k : Nat) (hk : k < res.2.length), ∃ hj : res.2[k] < cols.length, ColFits cols[res.2[k]] (row.getD k default).1 := by
+  unfold synthesizePlan at h
+  split at h
+  · simp [throw, throwThe, MonadExceptOf.throw, StateT.lift, StateT.run] at h
+  · rename_i convs F hF
+    unfold forestOfTable at hF
+    split at hF
+    · rename_i F' hinit
+      simp only [Except.ok.injEq, Prod.mk.injEq] at hF
+      obtain ⟨rfl, rfl⟩ := hF
+      have hsz : (fitTable E cols nrows).2.size = nrows := by simp [fitTable]
+      obtain ⟨_, hap, _, _⟩ := forest_init_ctx E _ F' hinit
+      have hdom := C07_table_domains E _ F' hinit (by simp only [hsz]; exact hn) (by rw [hap]; exact hlt) (fitTable E cols nrows).1
+        isIntegral entropy threshRel cl hini hder streams s s' res h
+      have hmem := C07_buildTable_columns E F' (fitTable E cols nrows).1 isIntegral entropy threshRel cl streams s s' res h
+      intro row hrow
+      obtain ⟨hlen, hcells⟩ := hdom row hrow
+      refine ⟨hlen, fun k hk => ?_⟩
+      have hj : res.2[k] < cols.length := hcols _ ((hmem _).mp (List.getElem_mem hk))
+      exact ⟨hj, colFits_of_fitted E F' cols nrows _ hj _ (hcells k hk)⟩
+    · cases hF
+
 end
